@@ -106,23 +106,35 @@ var hangSeconds = func() time.Duration {
 	return 15
 }()
 
+// cpuSeconds returns the CPU time (user+system) this process has consumed.
+func cpuSeconds() time.Duration {
+	var ru syscall.Rusage
+	if syscall.Getrusage(syscall.RUSAGE_SELF, &ru) != nil {
+		return 0
+	}
+	return time.Duration(ru.Utime.Nano() + ru.Stime.Nano())
+}
+
 // startWatchdog exits the process with status 3 when the heartbeat has not
-// moved for hangSeconds. Wall time is used only here, as a backstop for spins
-// in real code that has no seam in the loop.
+// moved while the process consumed `limit` of CPU time (a spin in real code
+// that has no seam in the loop), or for 8 x limit of wall time (blocked without
+// spinning). CPU time, not wall time, so that a machine busy with other work
+// does not turn a slow run into a "hang". Clocks are used only here, as a
+// backstop; no oracle reads them.
 func startWatchdog(p *progress, limit time.Duration) {
 	go func() {
 		last := atomic.LoadUint64(p.word(1))
-		lastMove := time.Now()
+		lastMove, lastCPU := time.Now(), cpuSeconds()
 		for {
 			time.Sleep(500 * time.Millisecond)
 			cur := atomic.LoadUint64(p.word(1))
 			if cur != last {
-				last, lastMove = cur, time.Now()
+				last, lastMove, lastCPU = cur, time.Now(), cpuSeconds()
 				continue
 			}
-			if time.Since(lastMove) > limit {
+			if cpuSeconds()-lastCPU > limit || time.Since(lastMove) > 8*limit {
 				run := atomic.LoadUint64(p.word(0))
-				fmt.Fprintf(os.Stderr, "WATCHDOG: no progress for %v in run %d\n", limit, int64(run)-1)
+				fmt.Fprintf(os.Stderr, "WATCHDOG: no progress for %v of CPU time (or %v of wall time) in run %d\n", limit, 8*limit, int64(run)-1)
 				if cur := simkit.Current(); cur != nil {
 					if b, err := json.Marshal(cur); err == nil {
 						fmt.Fprintf(os.Stderr, "WEDGED-SCENARIO: %s\n", b)
